@@ -268,6 +268,46 @@ class A(Adapter):
             return "dead_end"
         return None
 
+    # ---- reach probes ---------------------------------------------------------------------------
+    def events(self, ps, action, s, ts, env, cfg):
+        if ps is None:
+            empty = int((np.asarray(s.board) == -1).sum())
+            return ["reset_empty_le_10"] if empty <= 10 else (["reset_empty_ge_50"] if empty >= 50 else ["reset_empty_11_to_49"])
+        r, c, d = (int(x) for x in action)
+        pb = np.asarray(ps.board)
+        r0, c0 = 3 * (r // 3), 3 * (c // 3)
+        in_row, in_col, in_box = bool((pb[r, :] == d).any()), bool((pb[:, c] == d).any()), bool((pb[r0:r0 + 3, c0:c0 + 3] == d).any())
+        if pb[r, c] != -1:
+            return ["ended_invalid_cell_already_filled"] + (["invalid_same_digit_rewritten"] if pb[r, c] == d else [])
+        if in_row or in_col or in_box:
+            ev = ["ended_invalid_digit_conflict"]
+            if in_box and not in_row and not in_col:
+                ev.append("conflict_in_box_only")
+            if in_row and in_col and in_box:
+                ev.append("conflict_in_row_column_and_box")
+            return ev
+        ev = ["digit_placed"]
+        cand = self._legal_board(pb)[r, c]
+        if int(cand.sum()) == 1:
+            ev.append("only_candidate_of_cell_played")
+        nb = pb.copy()
+        nb[r, c] = d
+        done_units = [bool((nb[r, :] >= 0).all()), bool((nb[:, c] >= 0).all()), bool((nb[r0:r0 + 3, c0:c0 + 3] >= 0).all())]
+        if any(done_units):
+            ev.append("unit_completed")
+        if all(done_units):
+            ev.append("row_column_and_box_completed_at_once")
+        after = self._legal_board(nb)
+        if (nb >= 0).all():
+            ev.append("last_cell_filled")
+            if self._solved(nb):
+                ev.append("ended_solved")
+        elif not after.any():
+            ev.append("ended_dead_end")
+        elif ((nb == -1) & ~after.any(axis=2)).any():
+            ev.append("empty_cell_without_candidate")  # the game goes on although it cannot be won any more
+        return ev
+
     # ---- C12 -------------------------------------------------------------------------------------
     def observe(self, s, obs, env, cfg):
         if not np.array_equal(np.asarray(obs.board), np.asarray(s.board)):
